@@ -4222,8 +4222,11 @@ class EntityMeta(type):
         query_attrs = {attr: value is None for attr, value in avdict.items()}
         limit = 2 if not unique else None
         sql, adapter, attr_offsets = entity._construct_sql_(query_attrs, False, limit, for_update, nowait, skip_locked)
+        cache = database._get_cache()
+        if for_update: cache.immediate = True
+        # flush first: the values may be new objects which get their primary keys from the flush
+        cache.prepare_connection_for_query_execution()
         arguments = adapter(avdict)
-        if for_update: database._get_cache().immediate = True
         cursor = database._exec_sql(sql, arguments)
         objects = entity._fetch_objects(cursor, attr_offsets, 1, for_update, avdict)
         return objects[0] if objects else None
@@ -5918,11 +5921,12 @@ class Query(object):
     def _actual_fetch(query, limit=None, offset=None):
         translator = query._translator
         with query._prefetch_context:
-            sql, arguments, attr_offsets, query_key = query._construct_sql_and_arguments(limit, offset)
             database = query._database
             cache = database._get_cache()
             if query._for_update: cache.immediate = True
+            # flush first: the arguments may refer to new objects which get their primary keys from the flush
             cache.prepare_connection_for_query_execution()  # may clear cache.query_results
+            sql, arguments, attr_offsets, query_key = query._construct_sql_and_arguments(limit, offset)
             items = cache.query_results.get(query_key)
             if items is None:
                 cursor = database._exec_sql(sql, arguments)
@@ -6071,9 +6075,9 @@ class Query(object):
             cache_entry = database.provider.ast2sql(sql_ast)
             database._constructed_sql_cache[sql_key] = cache_entry
         sql, adapter = cache_entry
-        arguments = adapter(query._vars)
         cache.immediate = True
         cache.prepare_connection_for_query_execution()  # may clear cache.query_results
+        arguments = adapter(query._vars)  # after the flush: new objects have their primary keys now
         cursor = database._exec_sql(sql, arguments)
         cache.query_results.clear()
         return cursor.rowcount
@@ -6301,10 +6305,11 @@ class Query(object):
         return query._fetch(pagesize, offset, lazy=True)
     def _aggregate(query, aggr_func_name, distinct=None, sep=None):
         translator = query._translator
+        cache = query._database._get_cache()
+        # flush first: the arguments may refer to new objects which get their primary keys from the flush
+        cache.prepare_connection_for_query_execution()  # may clear cache.query_results
         sql, arguments, attr_offsets, query_key = query._construct_sql_and_arguments(
             aggr_func_name=aggr_func_name, aggr_func_distinct=distinct, sep=sep)
-        cache = query._database._get_cache()
-        cache.prepare_connection_for_query_execution()  # may clear cache.query_results
         try: result = cache.query_results[query_key]
         except KeyError:
             cursor = query._database._exec_sql(sql, arguments)
